@@ -270,6 +270,29 @@ mutual
           | none => .stuck
 end
 
+/-- An optimized expression read back as a core expression: `RestoreOnErr e` means `e` in the
+reference (a failed expression never leaves a trace there). -/
+def ofOptimized : OExpr → Expr
+  | .str s => .str s
+  | .insens s => .insens s
+  | .range a b => .range a b
+  | .ident n => .ident n
+  | .peekSlice a b => .peekSlice a b
+  | .posPred e => .posPred (ofOptimized e)
+  | .negPred e => .negPred (ofOptimized e)
+  | .seq a b => .seq (ofOptimized a) (ofOptimized b)
+  | .choice a b => .choice (ofOptimized a) (ofOptimized b)
+  | .opt e => .opt (ofOptimized e)
+  | .rep e => .rep (ofOptimized e)
+  | .repOnce e => .repOnce (ofOptimized e)
+  | .skip ss => .skip ss
+  | .push e => .push (ofOptimized e)
+  | .pushLiteral s => .pushLiteral s
+  | .nodeTag e t => .nodeTag (ofOptimized e) t
+  | .restoreOnErr e => ofOptimized e
+
+def ofOptimizedRules (rs : List ORule) : List Rule := rs.map fun r => ⟨r.name, r.ty, ofOptimized r.expr⟩
+
 /-- unroll every rule (I1); `none` if `unroll` panics (`e{0}`). -/
 def unrollRules (extras : Bool) (rules : List Rule) : Option (List Rule) := rules.mapM (unroll extras)
 
